@@ -257,6 +257,9 @@ impl Check for ProgCheck {
             PhaseSpec { name: "programs", cases: tier.pick(40_000, 600_000), max_bytes: 500, exhaustive: false },
             PhaseSpec { name: "large", cases: tier.pick(6_000, 100_000), max_bytes: 1200, exhaustive: false },
         ];
+        if self.kind == Kind::C09 {
+            v.push(PhaseSpec { name: "go", cases: tier.pick(2_000, 40_000), max_bytes: 80, exhaustive: false });
+        }
         if self.kind == Kind::C01 {
             v.push(PhaseSpec {
                 name: "corpus",
@@ -277,6 +280,9 @@ impl Check for ProgCheck {
                 let c = &corpus::project_cases()[(index - n) as usize];
                 Case::new(json!({"corpus": c.name, "dir": c.dir.to_string_lossy()}))
             };
+        }
+        if phase == "go" {
+            return crate::gogen::make_go_case(bytes, if ctx.tier == Tier::Thorough { 1000 } else { 200 });
         }
         let mut d = Dec::new(bytes);
         let cfg = cfg_for(self.kind, phase, ctx.tier, index);
@@ -307,6 +313,9 @@ impl Check for ProgCheck {
         if phase == "corpus" || case.input.get("corpus").is_some() {
             return judge_corpus(&case.input);
         }
+        if case.input.get("go").is_some() {
+            return crate::gogen::judge_go_case(&case.input, ctx);
+        }
         self.judge_text(&case.input, ctx)
     }
     fn setup(&self, _ctx: &mut Ctx) -> Result<Value, String> {
@@ -319,7 +328,7 @@ impl Check for ProgCheck {
             Kind::C02 => "Oracle: the emitted Go text parses and type-checks under the Go-subset checker (declared once/before use, assignability, call/return/composite literal typing, unused variables/imports, constant overflow, division by constant zero, missing return ...). Non-trivial = program declares a user type and uses a closure, function value or generic instantiation.",
             Kind::C07 => "Generator biased to generic functions/types and composite type arguments. Oracle: (1) behaviour as C01; (2) in Compilation.mono no generic function has more instances than distinct reachable type-argument tuples (computed from the model; arms proven unreachable may need none), instance names are pairwise distinct, every referenced function exists exactly once and no TParam/TVar/TApp residue remains (irck). Non-trivial = a generic call at a composite type or a generic function with a generic call.",
             Kind::C08 => "Generator biased to closures (captures of params, lets, pattern variables, Refs; nesting). Oracle: behaviour as C01. Non-trivial = a capturing closure that is called.",
-            Kind::C09 => "Generator biased to effects (ticks in every operand/argument/condition/branch position, Ref updates, failing operations, while conditions with effects). Oracle: the order and number of printed tick lines (stdout equality) and the failure point. Non-trivial = >=2 tick lines or an effectful right operand of && / ||.",
+            Kind::C09 => "Generator biased to effects (ticks in every operand/argument/condition/branch position, Ref updates, failing operations, while conditions with effects). Oracle: the order and number of printed tick lines (stdout equality) and the failure point. go phase: programs with 1-3 `go` closures (also nested) whose activations read/update shared Refs and print; ALL schedules (stateless DFS over the choice points before every ref_get/ref_set/print/go, capped at 200/1000 per program) are run in the reference interpreter and replayed in miniGo with the same choice sequence: equal output, end state, number of activations and sequence of choice points. Non-trivial = >=2 tick lines or an effectful right operand of && / ||, or (go) >= 2 schedules.",
         };
         format!("{common}{oracle} Distinct by hash of the program text.")
     }
@@ -336,7 +345,7 @@ impl Check for ProgCheck {
             Kind::C02 => vec!["adt:struct", "adt:enum", "closure", "generic-call", "vec", "ref", "array"],
             Kind::C07 => vec!["generic-call", "generic-call:composite", "mono-instances-checked"],
             Kind::C08 => vec!["closure:capture", "closure:call"],
-            Kind::C09 => vec!["tick", "while:cond-effect", "end:Failed(DivZero)"],
+            Kind::C09 => vec!["tick", "while:cond-effect", "end:Failed(DivZero)", "go", "go:all-schedules", "go:schedule-dependent-output"],
         }
     }
     fn max_discard_fraction(&self) -> f64 {
